@@ -537,8 +537,16 @@ class Ovld:
         self.dispatch.__code__ = rename_code(dispatch.__code__, self.shortname)
         self.dispatch.__doc__ = self.mkdoc()
 
-        for key, fn in list(self.defns.items()):
+        handlers = [
             self.register_signature(key, fn)
+            for key, fn in list(self.defns.items())
+        ]
+        # Only now do the rewritten recurse / call_next sites look things up
+        # in the new map: had the build failed half-way, the methods of the
+        # previous build that are still running would have been left with a
+        # partial table.
+        for handler in handlers:
+            handler.__globals__[f"___MAP{self.id}"] = self.map
 
         self._compiled = True
 
@@ -561,7 +569,7 @@ class Ovld:
         # to find it, if jurigged is used with ovld
         fn._conformer = Conformer(self, orig_fn, fn)
         self.map.register(sig, fn)
-        return self
+        return fn
 
     def register(self, fn=None, priority=0):
         """Register a function."""
